@@ -217,11 +217,12 @@ class OptimizerSeedCase(Case):
 
     family = "reproducibility/optimizer-seed"
 
-    def __init__(self, cid, key, parallel):
-        self.id, self.key, self.parallel = cid, key, parallel
+    def __init__(self, cid, key, parallel, generator=False):
+        self.id, self.key, self.parallel, self.generator = cid, key, parallel, generator
 
     def describe(self):
-        return f"differential_evolution options {{'{self.key}': <symbolic small integer>}} parallel={self.parallel}"
+        what = "Generator seeded with a symbolic small integer" if self.generator else "<symbolic small integer>"
+        return f"differential_evolution options {{'{self.key}': {what}}} parallel={self.parallel}"
 
     def inputs(self, env):
         return {"seed": env.integer("seed", 0, 3)}
@@ -231,8 +232,11 @@ class OptimizerSeedCase(Case):
         from .common import make_config
 
         seed = int(inp["seed"])
+        import numpy as real_np
+        given = real_np.random.default_rng(seed) if self.generator else seed
+        state0 = repr(given.bit_generator.state) if self.generator else None
         cfg = make_config({"variables": {"initial_values": [0.0, 0.0], "lower_bounds": -1.0, "upper_bounds": 1.0},
-                           "optimizer": {"method": "differential_evolution", "parallel": self.parallel, "options": {self.key: seed, "maxiter": 3}}})
+                           "optimizer": {"method": "differential_evolution", "parallel": self.parallel, "options": {self.key: given, "maxiter": 3}}})
         rec = {}
         old = (S.differential_evolution, S.Bounds)
         S.differential_evolution = lambda **kw: rec.update(kw)
@@ -241,13 +245,25 @@ class OptimizerSeedCase(Case):
             S.SciPyOptimizer(cfg, lambda *a, **k: None).start(np.zeros(2))
         finally:
             S.differential_evolution, S.Bounds = old
-        return {"kw": rec, "seed": seed}
+        out = {"kw": rec, "seed": seed}
+        if self.generator:
+            got = rec.get("seed", rec.get("rng"))
+            # the back-end draws from what it was handed; a second run of the same configuration must start
+            # from the same stream, so the configuration's own generator must not have moved
+            out["first_draw"] = float(got.random()) if hasattr(got, "random") else None
+            out["expected_draw"] = float(real_np.random.default_rng(seed).random())
+            out["config_state_kept"] = repr(cfg.optimizer.options[self.key].bit_generator.state) == state0
+        return out
 
     def props(self, env, inp, oc):
         if not oc.ok:
             return [("no_internal_exception:" + type(oc.exc).__name__, SB(False))]
         kw, seed = oc.value["kw"], oc.value["seed"]
         got = kw.get("seed", kw.get("rng", "missing"))
+        if self.generator:
+            return [("explicit_seed_reaches_the_optimizer", SB(oc.value["first_draw"] is not None and oc.value["first_draw"] == oc.value["expected_draw"])),
+                    ("a_run_does_not_consume_the_generator_of_the_configuration", SB(bool(oc.value["config_state_kept"]))),
+                    ("other_options_forwarded", SB(kw.get("maxiter") == 3))]
         return [("explicit_seed_reaches_the_optimizer", SB(got == seed and not isinstance(got, str))),
                 ("other_options_forwarded", SB(kw.get("maxiter") == 3))]
 
@@ -275,6 +291,8 @@ def build_cases(tier):
         for par in (False, True):
             k += 1
             cases.append(OptimizerSeedCase(f"c16-{k:03d}", key, par))
+        k += 1
+        cases.append(OptimizerSeedCase(f"c16-{k:03d}", key, False, generator=True))
     if tier == "thorough":
         for m in STATS + QMC:
             add(methods=(m,), shared=True, R=3)
